@@ -1,0 +1,209 @@
+//go:build verif
+
+package table
+
+import (
+	"container/list"
+	"time"
+)
+
+var _ time.Time
+
+// Contracts for the gcv verifier (/verif); compiled only with build tag `verif`.
+//
+// The PitCsTable interface as the forwarding pipelines (fw/fw) see it, and the refinement of these interface contracts by
+// *PitCsTree. The representation invariant of the concrete table is carried through the interface as OPAQUE predicates:
+// the pipelines (which declare them `opaque`) only thread them from one call to the next; the refinement check
+// (props: `mode: refine`) unfolds them for the dynamic type *PitCsTree and proves, contract against contract, that
+//   interface precondition  ==> concrete precondition            (#pre obligations of the refinement job)
+//   concrete frame          within interface frame               (#frame obligations)
+//   concrete postcondition  ==> interface postcondition          (#refines obligations)
+// The bodies are verified against the concrete contracts (C01/C02/C07/C08).
+
+var _ list.List
+
+// mapRef(m): identity of a map object (engine builtin; Go has no map equality).
+func mapRef(m any) int { panic("ghost") }
+
+// ghostField(x, "f"): field f of x where Go's visibility rules forbid writing x.f (unexported fields of container/list);
+// engine builtin, pure syntax for the field access.
+func ghostField(x any, f string) any { panic("ghost") }
+
+// lruLen / lruListOf: the unexported fields len of a list and list of an element (container/list model, zz_verif_pitcs.go).
+func lruLen(l *list.List) int              { return ghostField(l, "len").(int) }
+func lruListOf(e *list.Element) *list.List { return ghostField(e, "list").(*list.List) }
+
+// pitcsWf(p): what the methods called by the pipelines need of the tree, the token map, the Content Store index and the
+// LRU policy (the clauses are, one by one, the `invariant`/`requires` clauses of the concrete contracts in
+// zz_verif_pitcs.go; every clause also holds for an all-zero object):
+//   root at depth 0 with a children map; token map present, its values non-nil entries with a node     [root] [tokens]
+//   a non-root node has a component and its parent a children map; no two nodes share a children map  [shape] [sep]
+//   every child is non-nil, one level deeper, points back, has a children map and a component          [links]
+//   depths bounded; a node is one level below its parent                                              [depth] [up]
+//   CS entry and PIT entries point back to their node                                                 [cs-back] [pit-back]
+//   no dead leaf (attached node without children, PIT entries and CS entry)                           [no-dead-branch]
+//   csMap present, counted by nCsEntries, every entry stored under its own index and held by its node  [cs-index]
+//   the replacement policy is a *CsLRU of this table whose queue and location table agree              [lru]
+func pitcsWf(p *PitCsTree) bool {
+	return p.root != nil && p.root.depth == 0 && p.root.children != nil && p.pitTokenMap != nil &&
+		forall(func(k uint32) bool { return implies(mapHas(p.pitTokenMap, k), p.pitTokenMap[k] != nil && p.pitTokenMap[k].node != nil) }) &&
+		forall(func(n *pitCsTreeNode) bool {
+			return implies(n.parent != nil, n.component != nil && n.parent.children != nil)
+		}) &&
+		forall(func(a *pitCsTreeNode, b *pitCsTreeNode) bool {
+			return implies(a != b && a.children != nil, mapRef(a.children) != mapRef(b.children))
+		}) &&
+		forall(func(n *pitCsTreeNode, k uint64) bool {
+			return implies(mapHas(n.children, k), n.children[k] != nil && n.children[k].depth == n.depth+1 && n.children[k].parent == n && n.children[k].children != nil && n.children[k].component != nil)
+		}) &&
+		forall(func(n *pitCsTreeNode) bool { return 0 <= n.depth && n.depth <= 281474976710656 }) &&
+		forall(func(n *pitCsTreeNode) bool { return implies(n.parent != nil, n.depth == n.parent.depth+1) }) &&
+		forall(func(n *pitCsTreeNode) bool { return implies(n.csEntry != nil, n.csEntry.node == n) }) &&
+		forall(func(n *pitCsTreeNode, i int) bool {
+			return implies(0 <= i && i < len(n.pitEntries), n.pitEntries[i] != nil && n.pitEntries[i].node == n)
+		}) &&
+		forall(func(n *pitCsTreeNode) bool { return !pitcsDeadLeaf(n) }) &&
+		p.csMap != nil && p.nCsEntries == len(p.csMap) &&
+		forall(func(k uint64) bool {
+			return implies(mapHas(p.csMap, k), p.csMap[k] != nil && p.csMap[k].index == k && p.csMap[k].node != nil && p.csMap[k].node.csEntry == p.csMap[k])
+		}) &&
+		pitcsLruWf(p)
+}
+
+// pitcsLruWf(p): the replacement policy of p is a *CsLRU that points back to p and satisfies lruInv.
+func pitcsLruWf(p *PitCsTree) bool {
+	if l, ok := p.csReplacement.(*CsLRU); ok {
+		if c, ok2 := l.cs.(*PitCsTree); ok2 {
+			return l != nil && c == p && l.queue != nil && l.locations != nil && lruLen(l.queue) == len(l.locations) &&
+				forall(func(k uint64) bool {
+					return implies(mapHas(l.locations, k), l.locations[k] != nil && lruListOf(l.locations[k]) == l.queue && pitcsIsKey(l.locations[k].Value, k))
+				}) &&
+				forall(func(e *list.Element) bool {
+					return implies(lruListOf(e) == l.queue, pitcsKeyed(l, e))
+				})
+		}
+	}
+	return false
+}
+
+// pitcsIsKey: the queue element value is the key k (a uint64).
+func pitcsIsKey(v any, k uint64) bool {
+	if x, ok := v.(uint64); ok {
+		return x == k
+	}
+	return false
+}
+
+// pitcsKeyed: queue element e carries a key under which the location table records e.
+func pitcsKeyed(l *CsLRU, e *list.Element) bool {
+	if x, ok := e.Value.(uint64); ok {
+		return mapHas(l.locations, x) && l.locations[x] == e
+	}
+	return false
+}
+
+// specPitCsWf(t): the representation invariant of table t as far as the pipelines' calls need it. For another
+// implementation of the interface nothing is said (there is none in the repository).
+func specPitCsWf(t PitCsTable) bool {
+	if p, ok := t.(*PitCsTree); ok {
+		return p != nil && pitcsWf(p)
+	}
+	return true
+}
+
+// specCsKeysWf(t): the Content Store index and the location table of the policy hold the same keys ([same-keys]).
+// Kept apart from specPitCsWf because the CS lookup is not shown to preserve it (see FindMatchingDataFromCS below).
+func specCsKeysWf(t PitCsTable) bool {
+	if p, ok := t.(*PitCsTree); ok {
+		if l, ok2 := p.csReplacement.(*CsLRU); ok2 {
+			return forall(func(k uint64) bool { return mapHas(p.csMap, k) == mapHas(l.locations, k) }) && len(p.csMap) == len(l.locations)
+		}
+		return false
+	}
+	return true
+}
+
+// specPitRecsWf(t): the record tables of the PIT entries: every entry that has a node (every entry ever created by
+// InsertInterest; an all-zero object has none) has an in-record table, and no in-record in it is nil. Kept apart from
+// specPitCsWf because the strategies and the entry methods write these tables.
+func specPitRecsWf(t PitCsTable) bool {
+	if _, ok := t.(*PitCsTree); ok {
+		return forall(func(e *nameTreePitEntry) bool { return implies(e.node != nil, e.inRecords != nil) }) &&
+			forall(func(e *nameTreePitEntry, k uint64) bool {
+				return implies(e.node != nil && mapHas(e.inRecords, k), e.inRecords[k] != nil)
+			})
+	}
+	return true
+}
+
+// ---------------------------------------------------------------------------------------
+// Interface contracts (the environment model of fw/fw; refinement by *PitCsTree is checked)
+// ---------------------------------------------------------------------------------------
+
+// FindInterestPrefixMatchByDataEnc: every entry returned is a live *nameTreePitEntry with an in-record table holding no nil
+// record (what the strategies' SendData needs); with a token at most one entry is returned; nothing is modified.
+//
+//@ func (PitCsTable).FindInterestPrefixMatchByDataEnc
+//@   requires data != nil && specPitCsWf(self) && specPitRecsWf(self)
+//@   nullable token
+//@   ensures [wf-kept] specPitCsWf(self) && specPitRecsWf(self)
+//@   ensures [entries] forallIn(0, len(result), func(i int) bool { return result[i] != nil && typeIs(result[i], "*nameTreePitEntry") && result[i].(*nameTreePitEntry) != nil && result[i].(*nameTreePitEntry).inRecords != nil })
+//@   ensures [records] forallIn(0, len(result), func(i int) bool { return forall(func(k uint64) bool { return mapHas(result[i].(*nameTreePitEntry).inRecords, k) ==> result[i].(*nameTreePitEntry).inRecords[k] != nil }) })
+//@   ensures [by-token] token != nil ==> len(result) <= 1
+
+// InsertInterest (C01 aggregation rule, C02 duplicate-nonce rule): the entry returned is a live *nameTreePitEntry at the
+// depth of the Interest name with the Interest's selectors (an exact-match Interest is never folded into a CanBePrefix
+// entry), with an in-record table holding no nil record; the flag is true exactly if an in-record of ANOTHER face holds the
+// Interest's nonce.
+//
+//@ func (PitCsTable).InsertInterest
+//@   requires interest != nil && interest.NonceV != nil && specPitCsWf(self) && specPitRecsWf(self)
+//@   modifies all(basePitEntry), all(nameTreePitEntry), all(pitCsTreeNode), all(PitCsTree), all(ghostPitcsEntrySlice), all(ghostPitcsChildMap), all(ghostPitcsTokenMap), all(time.Time)
+//@   ensures [wf-kept] specPitCsWf(self) && specPitRecsWf(self)
+//@   ensures [entry] result0 != nil && typeIs(result0, "*nameTreePitEntry") && result0.(*nameTreePitEntry) != nil && result0.(*nameTreePitEntry).inRecords != nil
+//@   ensures [records] forall(func(k uint64) bool { return mapHas(result0.(*nameTreePitEntry).inRecords, k) ==> result0.(*nameTreePitEntry).inRecords[k] != nil })
+//@   ensures [aggregation] result0.(*nameTreePitEntry).node != nil && result0.(*nameTreePitEntry).node.depth == len(interest.NameV) && result0.(*nameTreePitEntry).canBePrefix == interest.CanBePrefixV && result0.(*nameTreePitEntry).mustBeFresh == interest.MustBeFreshV
+//@   ensures [duplicate-nonce] result1 == exists(func(k uint64) bool { return mapHas(result0.(*nameTreePitEntry).inRecords, k) && k != inFace && result0.(*nameTreePitEntry).inRecords[k].LatestNonce == *interest.NonceV })
+
+// ghostPitcsTokenMap names the type of PitCsTree.pitTokenMap for `modifies all(...)` clauses.
+type ghostPitcsTokenMap = map[uint32]*nameTreePitEntry
+
+// InsertData (C07): the representation invariant is kept (the fw/fw view adds the ghost insertion counter of C09).
+//
+//@ func (PitCsTable).InsertData
+//@   requires data != nil && specPitCsWf(self) && specCsKeysWf(self)
+//@   modifies all(pitCsTreeNode), all(PitCsTree), all(baseCsEntry), all(nameTreeCsEntry), all(time.Time), all(ghostPitcsChildMap), all(ghostPitcsCsMap), all(ghostPitcsLocMap), all(list.List.len), all(list.Element.list)
+//@   ensures [wf-kept] specPitCsWf(self) && specCsKeysWf(self)
+//@   ensures [recs-kept] old(specPitRecsWf(self)) ==> specPitRecsWf(self)
+
+type ghostPitcsCsMap = map[uint64]*nameTreeCsEntry
+
+// ghostPitInRecMap names the type of the in-record tables for `modifies all(...)` clauses.
+type ghostPitInRecMap = map[uint64]*PitInRecord
+type ghostPitcsLocMap = map[uint64]*list.Element
+
+// FindMatchingDataFromCS (C07): a non-nil answer is a live *nameTreeCsEntry held by its node, at the depth of the Interest
+// name or, with CanBePrefix, deeper; with MustBeFresh some clock reading taken during the call lies before its stale time.
+// specCsKeysWf is NOT promised afterwards: touching the entry in the LRU queue keeps the key sets equal only if the entry
+// found at the node is the one registered in csMap under its index, a link the node-level invariants do not record.
+//
+//@ func (PitCsTable).FindMatchingDataFromCS
+//@   requires interest != nil && specPitCsWf(self)
+//@   modifies all(ghostPitcsLocMap), all(list.List.len), all(list.Element.list)
+//@   ensures [wf-kept] specPitCsWf(self)
+//@   ensures [name-match] result != nil ==> typeIs(result, "*nameTreeCsEntry") && result.(*nameTreeCsEntry) != nil && result.(*nameTreeCsEntry).node != nil && result.(*nameTreeCsEntry).node.csEntry == result.(*nameTreeCsEntry) && (result.(*nameTreeCsEntry).node.depth == len(interest.NameV) || (interest.CanBePrefixV && result.(*nameTreeCsEntry).node.depth >= len(interest.NameV)))
+//@   ensures [fresh] result != nil && interest.MustBeFreshV ==> existsIn(old(ghostPitcsClock), ghostPitcsClock, func(i int) bool { return specPitcsClockAt(i).Before(result.(*nameTreeCsEntry).staleTime) })
+
+// IsCsServing / IsCsAdmitting: configuration reads; nothing is modified.
+//
+//@ func (PitCsTable).IsCsServing
+//@   ensures result == csServe
+
+//@ func (PitCsTable).IsCsAdmitting
+//@   ensures result == csAdmit
+
+//@ func (*PitCsTree).IsCsServing
+//@   ensures result == csServe
+
+//@ func (*PitCsTree).IsCsAdmitting
+//@   ensures result == csAdmit
